@@ -78,10 +78,11 @@ impl std::fmt::Display for Card {
 impl TryFrom<&str> for Card {
     type Error = String;
     fn try_from(s: &str) -> Result<Self, Self::Error> {
-        match s.trim().len() {
-            2 => {
-                let rank = Rank::try_from(&s.trim()[0..1])?;
-                let suit = Suit::try_from(&s.trim()[1..2])?;
+        let chars = s.trim().chars().collect::<Vec<char>>();
+        match chars.as_slice() {
+            [rank, suit] => {
+                let rank = Rank::try_from(rank.to_string().as_str())?;
+                let suit = Suit::try_from(suit.to_string().as_str())?;
                 Ok(Card::from((rank, suit)))
             }
             _ => Err("2 characters".into()),
